@@ -19,8 +19,27 @@ SOUND_STORE_COLS = {"hitsound_set", "volume", "hitsound_file"}
 SOUND_COLS = ["hitsound_set", "hitsound_file", "sample_set", "addition_set", "custom_set"]
 
 
+def _u(e):
+    return ast.unparse(e) if e is not None else ""
+
+
+# roles of the locals of hitsound_copy the rules talk about (sa/normal.py: with_roles)
+HSC_ROLES = (
+    ("df_src", lambda n, v, st: isinstance(v, ast.Call) and call_name(v) == "groupby" and v.args and C.const_str(v.args[0]) == "offset"),
+    ("offset", lambda n, v, st: isinstance(st, ast.For) and _u(st.iter) == "df_src" and isinstance(st.target, ast.Tuple) and
+     isinstance(st.target.elts[0], ast.Name) and st.target.elts[0].id == n),
+    ("offset_group", lambda n, v, st: isinstance(st, ast.For) and _u(st.iter) == "df_src" and isinstance(st.target, ast.Tuple) and
+     isinstance(st.target.elts[1], ast.Name) and st.target.elts[1].id == n),
+    ("hitsound_files", lambda n, v, st: isinstance(v, ast.ListComp) and ".split(" in _u(v.generators[0].iter) and "hitsound_file" in _u(v.generators[0].iter)),
+    ("slot", lambda n, v, st, node: isinstance(v, ast.Constant) and v.value == 0 and isinstance(st, ast.Assign) and any(
+        isinstance(x, ast.AugAssign) and isinstance(x.target, ast.Name) and x.target.id == n and isinstance(x.op, ast.Add) and
+        isinstance(x.value, ast.Constant) and x.value.value == 1 for x in ast.walk(node))),
+)
+
+
 def _fn(ctx):
-    return ctx.M.nfn(HSC, subst=True)
+    from ..normal import with_roles
+    return with_roles(ctx.M.nfn(HSC, subst=True), HSC_ROLES)
 
 
 def _frames(fn) -> Dict[str, ast.Assign]:
